@@ -1,9 +1,10 @@
 #!/bin/sh
 # usage: run_seed_iso.sh <seed id> <property> [tier] — like run_seed.sh but in a scratch worktree of /repo
-# (VERIF_REPO), with its own build, work, replay and evidence directories: /repo and the registered files
+# (VERIF_REPO), with its own build, work, replay and evidence directories (fixed worktree path, so builds are incremental and one instance runs at a time): /repo and the registered files
 # are never touched, so it can run next to other work.
 ID="$1"; P="$2"; T="${3:-quick}"
-WT=/tmp/rs_wt_$$
+WT=/tmp/rs_wt
+git -C /repo worktree remove --force $WT >/dev/null 2>&1
 git -C /repo worktree add --detach $WT HEAD >/dev/null 2>&1 || exit 2
 if ! git -C $WT apply /verif/seeded/$ID/patch.diff 2>/dev/null; then echo "$ID $P $T patch does not apply"; git -C /repo worktree remove --force $WT; exit 0; fi
 mkdir -p /verif/work/seedruns /verif/work/iso-evidence /verif/work/iso-replays
